@@ -1015,6 +1015,16 @@ func ruleBoundedCopy(c *Ctx) {
 				n++
 				total++
 				key := fmt.Sprintf("%s|name copy#%d", shortName(f), n)
+				// the destination is the whole field: a window that stops short of a fixed-size
+				// buffer (record[:17] of an 18-byte record) loses the last byte of a name that
+				// fills the field
+				if sl, ok := dst.(*ssa.Slice); ok && sl.Low == nil {
+					if hk, ok := sl.High.(*ssa.Const); ok && isIntConst(hk) {
+						if full, ok := staticLen(sl.X); ok && hk.Int64() < full {
+							c.fail("B9", key+" destination", c.L.Pos(instrPos(in)), fmt.Sprintf("the name is copied into the first %d bytes of a %d-byte field: a name that fills the field loses its last byte(s)", hk.Int64(), full))
+						}
+					}
+				}
 				// headerBuf/sectionHeaderBuf copies into finalBytes slices: source length is checked explicitly
 				if constStringSource(src) {
 					c.ok("B9", key, c.L.Pos(instrPos(in)), "source is a constant string")
